@@ -254,7 +254,7 @@ int_t __wrap_sp_dtrsv(char *uplo, char *trans, char *diag, SuperMatrix *L, Super
 /* ------------------------------------------------------------------ case input */
 typedef struct {
     char id[128];
-    long n, nnz, nrhs, stype, trans, fact, nprocs, permc, dirty, equed_in, ldb, ldx;   /* ldb, ldx: leading dimensions of B, X (0 = n) */
+    long n, nnz, nrhs, stype, trans, fact, nprocs, permc, dirty, equed_in, ldb, ldx, stale;   /* ldb, ldx: leading dimensions of B, X (0 = n) */
     double u;
     int_t *ptr, *ind; val_t *val, *b; double *xpert, *apert;
     double *M;             /* lacon mode: dense n x n operator, row major */
@@ -291,6 +291,7 @@ static int read_case(vcase *c)
         else if (!strcmp(key, "dirty")) c->dirty = rd_i();
         else if (!strcmp(key, "ldb")) c->ldb = rd_i();
         else if (!strcmp(key, "ldx")) c->ldx = rd_i();
+        else if (!strcmp(key, "stale")) c->stale = rd_i();
         else if (!strcmp(key, "u")) c->u = rd_f();
         else if (!strcmp(key, "ptr")) { c->ptr = malloc(sizeof(int_t) * (c->n + 1)); for (long i = 0; i <= c->n; ++i) c->ptr[i] = rd_i(); }
         else if (!strcmp(key, "ind")) { c->ind = malloc(sizeof(int_t) * (c->nnz + 1)); for (long i = 0; i < c->nnz; ++i) c->ind[i] = rd_i(); }
@@ -395,6 +396,12 @@ static void run_ssvx(vcase *c)
     mach[0] = LAMCH("E"); mach[1] = LAMCH("S");
     fprintf(out, "#R case %s\n#R mode ssvx\n", c->id);
     pr_real("mach", mach, 2);
+    if (c->stale > 0 && c->fact != (long) FACTORED) {
+        /* equed, R and C are OUTPUTS of a call that factors (fact != FACTORED): what the caller's variables held before - here the
+         * result of an earlier, unrelated call that did equilibrate - is not an argument of this call */
+        equed = (equed_t) (c->stale & 3);
+        for (i = 0; i < n; ++i) { R[i] = (real_t) ldexp(1.0, (int) ((i * 37 + 11) % 41) - 20); C[i] = (real_t) ldexp(1.0, (int) ((i * 29 + 5) % 37) - 18); }
+    }
     logvec = (VP_PREC == 1);
     L.Store = U.Store = NULL;
     PP(gssvx)(c->nprocs, &o, &A, perm_c, perm_r, &equed, R, C, &L, &U, &B, &X, &rpg, &rcond, ferr, berr, &mu, &info);
